@@ -274,6 +274,25 @@ def _is_sub(cls, base):
     return isinstance(cls, type) and issubclass(cls, base) and cls is not base
 
 
+_PSIJ = []
+
+
+def _psij_launcher():
+    if _PSIJ:
+        return _PSIJ[0]
+    import logging
+    logging.disable(logging.INFO)                     # psi_j.py switches the root logger to DEBUG on import
+    from radical.pilot.pmgr.launching.psi_j import PilotLauncherPSIJ
+    logging.getLogger().setLevel(logging.ERROR)
+    logging.getLogger('psij').setLevel(logging.ERROR)
+    lp = PilotLauncherPSIJ.__new__(PilotLauncherPSIJ)
+    _PSIJ.append(lp)
+    lp._log = boot.LOG
+    lp._jex = {}
+    lp._job_status_cb = lambda *a, **k: None
+    return lp
+
+
 def run_resolve(case):
     res = CaseResult()
     resource, schema = case['resource'], case['schema']
@@ -310,6 +329,37 @@ def run_resolve(case):
         if not rcfg.get(ep) or not isinstance(rcfg.get(ep), str):
             res.fail('endpoint_missing:%s' % resource,
                      'schema %s: %s = %r' % (schema, ep, rcfg.get(ep)))
+
+    # --- "can be turned into a batch job": a pilot launcher of the code base takes the endpoint.
+    # The endpoint scheme names the batch system and optionally a transport (ssh / gsissh), in
+    # either order (both orders are shipped); the PSI/J launcher (tried first by the launching
+    # component) maps the batch system to its executor.  Endpoints naming a transport only
+    # (plain shell access) are left to the SAGA launcher, which is not installed here.
+    ep = rcfg.get('job_manager_endpoint')
+    if isinstance(ep, str) and ep:
+        parts = ep.split(':')[0].split('+')
+        batch = [x for x in parts if x not in ('ssh', 'gsissh')]
+        if len(batch) == 1:
+            want = {'pbspro': 'pbs', 'fork': 'local'}.get(batch[0], batch[0])
+            try:
+                lp = _psij_launcher()
+                got = lp._get_schema(rcfg)
+                if got != want:
+                    res.fail('no_pilot_launcher:%s' % resource,
+                             'schema %s: endpoint %s names batch system %r, the PSI/J launcher '
+                             'maps it to %r (expected %r): no launcher takes the pilot'
+                             % (schema, ep, batch[0], got, want))
+                elif not lp.can_launch(rcfg, [{'uid': 'pilot.0000'}]):
+                    res.fail('no_pilot_launcher:%s' % resource,
+                             'schema %s: endpoint %s: PSI/J launcher refuses (executor %r)'
+                             % (schema, ep, got))
+                res.label('launcher=psij:%s' % want)
+                if parts[0] in ('ssh', 'gsissh'):
+                    res.label('endpoint_names_transport_first')
+            except Exception as e:      # noqa
+                res.fail(exc_sig('pilot_launcher_raised:%s' % resource, e), 'schema %s: %r' % (schema, e))
+        else:
+            res.label('launcher=saga_only(not installed)')
 
     # --- resource manager
     name = rcfg.resource_manager
